@@ -124,12 +124,18 @@ def check(run):
         run.check(not noinv, 'R12.inverse', f, 'inverses of C(0..23)', 'no inverse among the indexed gates for C(%s)' % noinv)
     for k in (-1, 24, 25, 100):
         r = tables.gate_tables(repo, f, [{'num': k, 'qubits': (0,)}])[0]
+        if r[0] in ('none', 'ambiguous'):
+            run.undecided('R11.index', f, 'num == %d' % k, 'what C does with index %d is not readable (the index is not handled by guards this rule evaluates)' % k)
+            continue
         run.check(r[0] == 'raise', 'R11.index', f, 'num == %d' % k, 'invalid index %d is not rejected (%s)' % (k, r[0]))
     for q in ((), (0, 1)):
         r = tables.gate_tables(repo, f, [{'num': 0, 'qubits': q}])[0]
         run.check(r[0] == 'raise', 'R11.arity', f, 'C%r' % (q,), 'C accepts %d qubits without raising' % len(q))
     ok, why = tables.gate_wiring(repo, f, envs)
-    run.check(ok, 'R12.wiring', f, 'forward map of C', why)
+    if not ok and not seen:
+        run.undecided('R12.wiring', f, 'forward map of C', 'the tables of C are not readable, so its wiring is not decided: %s' % why)
+    else:
+        run.check(ok, 'R12.wiring', f, 'forward map of C', why)
     # ---- CNOT, both orientations (the mask is order-blind: local wire 0 is the smaller qubit index)
     f = fs['CNOT']
     valid = with_gate_attrs(repo, [{'qubits': q} for q in ((0, 1), (1, 0), (0, 2), (2, 0), (1, 3), (3, 1), (4, 5), (7, 2))])
